@@ -100,22 +100,36 @@ Proof.
   - apply IH. exact Hr.
 Qed.
 
-(* the three elementwise guards together decide validity on NaN-free 1-D input *)
+(* strictly positive differences after a finite first element: every element is finite *)
+Lemma pos_diffs_finite : forall ts q0,
+  forallb tv_pos (tdiff (TQ q0 :: ts)) = true -> forallb tv_finite ts = true.
+Proof.
+  induction ts as [|t ts IH]; intros q0 H; [reflexivity|].
+  change (tdiff (TQ q0 :: t :: ts)) with (tsub t (TQ q0) :: tdiff (t :: ts)) in H.
+  simpl forallb in H. apply andb_true_iff in H as [H1 H2].
+  destruct t as [q|]; [|discriminate H1].
+  simpl. apply (IH q). exact H2.
+Qed.
+
+(* the three elementwise guards, the start guard in its positive form, decide validity of ANY 1-D input
+   (NaN included: `not start < t0` refuses a NaN start and a NaN first time, and a NaN later on makes a
+   difference NaN, which is not > 0) *)
 Lemma guards_imply_valid : forall ts start,
-  nan_free (R1 ts) start ->
   guard_passes GFirstNonZero start (R1 ts) = true ->
-  guard_passes GStartBelowFirst start (R1 ts) = true ->
+  guard_passes GStartLtFirst start (R1 ts) = true ->
   guard_passes GIncreasing start (R1 ts) = true ->
   valid (R1 ts) start.
 Proof.
-  intros ts start [Hs Hf] H0 H1 H2.
+  intros ts start H0 H1 H2.
+  destruct ts as [|t0 ts]; [discriminate|].
+  simpl in H0, H1, H2.
+  destruct start as [s|]; [|discriminate]. destruct t0 as [q0|]; [|discriminate].
+  pose proof (pos_diffs_finite ts q0 H2) as Hf.
   destruct (finite_map ts Hf) as [qs ->].
-  destruct start as [s|]; [|discriminate].
-  exists qs, s. split; [reflexivity|]. split; [reflexivity|].
-  destruct qs as [|q0 qs]; [discriminate|].
-  simpl in H0, H1. unfold valid_q. repeat split.
-  - intros Hz. apply negb_true_iff in H0. apply Qeq_bool_iff in Hz. congruence.
-  - apply negb_true_iff in H1. destruct (Qlt_le_dec s q0) as [Hlt|Hle]; [exact Hlt|].
+  exists (q0 :: qs), s. split; [reflexivity|]. split; [reflexivity|].
+  unfold valid_q. repeat split.
+  - intros Hz. apply negb_true_iff in H0. apply Qeq_bool_iff in Hz. simpl in H0. congruence.
+  - simpl in H1. apply negb_true_iff in H1. destruct (Qlt_le_dec s q0) as [Hlt|Hle]; [exact Hlt|].
     exfalso. apply Qle_bool_iff in Hle. congruence.
   - apply increasing_of_guard. exact H2.
 Qed.
@@ -129,6 +143,8 @@ Proof.
   destruct g; simpl; try reflexivity.
   - apply negb_true_iff. destruct (Qeq_bool q0 0) eqn:E; [|reflexivity].
     apply Qeq_bool_iff in E. contradiction.
+  - apply negb_true_iff. destruct (Qle_bool q0 s) eqn:E; [|reflexivity].
+    apply Qle_bool_iff in E. exfalso. lra.
   - apply negb_true_iff. destruct (Qle_bool q0 s) eqn:E; [|reflexivity].
     apply Qle_bool_iff in E. exfalso. lra.
   - apply (guard_of_increasing (q0 :: qs)). exact Hinc.
@@ -149,7 +165,8 @@ Proof. intros r start [qs [s [-> _]]]. reflexivity. Qed.
 Lemma ctor_some : forall G f r s nd ro, ctor G f r s nd = Some ro ->
   ro = {| r_times := r; r_start := s; r_nd := nd |}.
 Proof.
-  intros G f r s nd ro H. unfold ctor in H. destruct f; [|discriminate].
+  intros G f r s nd ro H. unfold ctor in H.
+  destruct (match f with FNdarray => g_ndarray G | FList => true end); [|discriminate].
   destruct (guards_pass (g_ctor G) s r && concat_ok r); [|discriminate]. congruence.
 Qed.
 
@@ -162,8 +179,8 @@ Proof.
     inversion H. reflexivity.
   - inversion H. reflexivity.
   - apply ctor_some in H. exact H.
-  - discriminate.
-  - discriminate.
+  - apply ctor_some in H. exact H.
+  - apply ctor_some in H. exact H.
 Qed.
 
 Lemma apply_ops_some : forall G ops ro ro', apply_ops G ro ops = Some ro' -> ro' = intended ro ops.
@@ -175,29 +192,36 @@ Proof.
 Qed.
 
 Definition ro_valid (ro : readout) : Prop := valid (r_times ro) (r_start ro).
-Definition plain_op (o : op) : bool :=
-  match o with OReplaceStart _ | OReplaceND _ => false | _ => true end.
+(* a constructor that takes numpy arrays never refuses a valid schedule, in either form; hence no setter and
+   no replace() — which hands the constructor its own numpy array — ever does *)
+Lemma ctor_valid : forall G f r s nd, g_ndarray G = true -> valid r s ->
+  ctor G f r s nd = Some {| r_times := r; r_start := s; r_nd := nd |}.
+Proof.
+  intros G f r s nd HN Hv. unfold ctor. rewrite HN.
+  rewrite (valid_passes _ _ _ Hv), (valid_concat_ok _ _ Hv). destruct f; reflexivity.
+Qed.
 
 Lemma apply_op_valid : forall G ro o,
-  plain_op o = true -> ro_valid (intend_op ro o) -> apply_op G ro o = Some (intend_op ro o).
+  g_ndarray G = true -> ro_valid (intend_op ro o) -> apply_op G ro o = Some (intend_op ro o).
 Proof.
-  intros G ro o Hp Hv. destruct o; simpl in *; try discriminate; unfold ro_valid in Hv; simpl in Hv.
+  intros G ro o HN Hv. destruct o; simpl in *; unfold ro_valid in Hv; simpl in Hv.
   - rewrite (valid_passes _ _ _ Hv), (valid_concat_ok _ _ Hv). reflexivity.
   - rewrite (valid_passes _ _ _ Hv). reflexivity.
   - reflexivity.
-  - unfold ctor. rewrite (valid_passes _ _ _ Hv), (valid_concat_ok _ _ Hv). reflexivity.
+  - apply ctor_valid; assumption.
+  - apply ctor_valid; assumption.
+  - apply ctor_valid; assumption.
 Qed.
 
 Lemma apply_ops_valid : forall G ops ro,
-  forallb plain_op ops = true -> Forall ro_valid (intended_all ro ops) ->
+  g_ndarray G = true -> Forall ro_valid (intended_all ro ops) ->
   apply_ops G ro ops = Some (intended ro ops).
 Proof.
-  induction ops as [|o ops IH]; intros ro Hp Hv; [reflexivity|].
-  simpl in Hp. apply andb_true_iff in Hp as [Hp1 Hp2].
+  induction ops as [|o ops IH]; intros ro HN Hv; [reflexivity|].
   simpl in Hv. inversion Hv as [|x l Hro Hrest]; subst.
   assert (Hnext : ro_valid (intend_op ro o)).
   { destruct ops; simpl in Hrest; inversion Hrest; assumption. }
-  simpl. rewrite (apply_op_valid G ro o Hp1 Hnext). unfold intended. simpl.
+  simpl. rewrite (apply_op_valid G ro o HN Hnext). unfold intended. simpl.
   apply IH; assumption.
 Qed.
 
@@ -342,53 +366,66 @@ Section Runs.
     rewrite (valid_passes _ _ _ Hv). unfold trace_of, steps. rewrite tdiff_length. reflexivity.
   Qed.
 
-  Lemma run_invalid : rp_complete G = true ->
-    forall ro prog d0, nan_free (r_times ro) (r_start ro) -> ~ ro_valid ro ->
+  Lemma run_invalid : rp_complete_nan G = true ->
+    forall ro prog d0, ~ ro_valid ro ->
     run_readout A zero G E ro prog d0 = Rejected 2.
   Proof.
-    intros HG ro prog d0 Hnf Hnv. unfold run_readout. destruct (r_times ro) as [ts|] eqn:Ht; [|reflexivity].
+    intros HG ro prog d0 Hnv. unfold run_readout. destruct (r_times ro) as [ts|] eqn:Ht; [|reflexivity].
     destruct (guards_pass (g_rp G) (r_start ro) (R1 ts)) eqn:Hp; [|reflexivity].
     exfalso. apply Hnv. unfold ro_valid. rewrite Ht.
-    unfold rp_complete in HG. apply andb_true_iff in HG as [HG H3]. apply andb_true_iff in HG as [H1 H2].
-    apply guards_imply_valid; [exact Hnf| | |]; eapply gmem_pass; eassumption.
+    unfold rp_complete_nan in HG. apply andb_true_iff in HG as [HG H3]. apply andb_true_iff in HG as [H1 H2].
+    apply guards_imply_valid; eapply gmem_pass; eassumption.
   Qed.
 
-  Lemma run_rejected_or_ran_valid : rp_complete G = true ->
-    forall ro prog d0 os, nan_free (r_times ro) (r_start ro) ->
+  Lemma run_rejected_or_ran_valid : rp_complete_nan G = true ->
+    forall ro prog d0 os,
     run_readout A zero G E ro prog d0 = Ran os -> ro_valid ro.
   Proof.
-    intros HG ro prog d0 os Hnf Hr.
+    intros HG ro prog d0 os Hr.
     unfold run_readout in Hr. destruct (r_times ro) as [ts|] eqn:Ht; [|discriminate].
     destruct (guards_pass (g_rp G) (r_start ro) (R1 ts)) eqn:Hp; [|discriminate].
     unfold ro_valid. rewrite Ht.
-    unfold rp_complete in HG. apply andb_true_iff in HG as [HG H3]. apply andb_true_iff in HG as [H1 H2].
-    apply guards_imply_valid; [exact Hnf| | |]; eapply gmem_pass; eassumption.
+    unfold rp_complete_nan in HG. apply andb_true_iff in HG as [HG H3]. apply andb_true_iff in HG as [H1 H2].
+    apply guards_imply_valid; eapply gmem_pass; eassumption.
   Qed.
 
-  Lemma scenario_invalid : rp_complete G = true ->
+  Lemma scenario_invalid : rp_complete_nan G = true ->
     forall f r s nd ops prog d0,
     let fin := intended {| r_times := r; r_start := s; r_nd := nd |} ops in
-    nan_free (r_times fin) (r_start fin) -> ~ ro_valid fin ->
+    ~ ro_valid fin ->
     exists stage, scenario A zero G E f r s nd ops prog d0 = Rejected stage.
   Proof.
-    intros HG f r s nd ops prog d0 fin Hnf Hnv. unfold scenario.
+    intros HG f r s nd ops prog d0 fin Hnv. unfold scenario.
     destruct (ctor G f r s nd) as [ro|] eqn:Hc; [|eexists; reflexivity].
     apply ctor_some in Hc. subst ro.
     destruct (apply_ops G _ ops) as [ro'|] eqn:Ha; [|eexists; reflexivity].
     apply apply_ops_some in Ha. subst ro'. exists 2%Z. apply run_invalid; assumption.
   Qed.
 
-  Lemma scenario_valid : forall r s nd ops prog d0,
-    let ro := {| r_times := r; r_start := s; r_nd := nd |} in
-    forallb plain_op ops = true -> Forall ro_valid (intended_all ro ops) ->
-    forall ts, r_times (intended ro ops) = R1 ts ->
-    scenario A zero G E FList r s nd ops prog d0 = Ran (trace_of (intended ro ops) ts prog d0).
+  (* no run on an invalid schedule: what ran was valid *)
+  Lemma scenario_ran_valid : rp_complete_nan G = true ->
+    forall f r s nd ops prog d0 trace,
+    scenario A zero G E f r s nd ops prog d0 = Ran trace ->
+    ro_valid (intended {| r_times := r; r_start := s; r_nd := nd |} ops).
   Proof.
-    intros r s nd ops prog d0 ro Hp Hall ts Hts. unfold scenario.
+    intros HG f r s nd ops prog d0 trace H. unfold scenario in H.
+    destruct (ctor G f r s nd) as [ro|] eqn:Hc; [|discriminate].
+    apply ctor_some in Hc. subst ro.
+    destruct (apply_ops G _ ops) as [ro'|] eqn:Ha; [|discriminate].
+    apply apply_ops_some in Ha. subst ro'.
+    eapply run_rejected_or_ran_valid; eassumption.
+  Qed.
+
+  Lemma scenario_valid : g_ndarray G = true -> forall f r s nd ops prog d0,
+    let ro := {| r_times := r; r_start := s; r_nd := nd |} in
+    Forall ro_valid (intended_all ro ops) ->
+    forall ts, r_times (intended ro ops) = R1 ts ->
+    scenario A zero G E f r s nd ops prog d0 = Ran (trace_of (intended ro ops) ts prog d0).
+  Proof.
+    intros HN f r s nd ops prog d0 ro Hall ts Hts. unfold scenario.
     assert (Hro : ro_valid ro) by (destruct ops; simpl in Hall; inversion Hall; assumption).
-    unfold ctor. unfold ro_valid in Hro. simpl in Hro.
-    rewrite (valid_passes _ _ _ Hro), (valid_concat_ok _ _ Hro). simpl.
-    fold ro. rewrite (apply_ops_valid G ops ro Hp Hall).
+    unfold ro_valid in Hro. simpl in Hro. rewrite (ctor_valid G f r s nd HN Hro).
+    fold ro. rewrite (apply_ops_valid G ops ro HN Hall).
     apply run_valid; [exact Hts|]. apply intended_all_last_valid. exact Hall.
   Qed.
 
@@ -455,11 +492,10 @@ End Runs.
 (* ------------------------------------------------------------------------------------------------ *)
 (* statements in the form used by Properties/C02.v                                                    *)
 
-(* the caller only ever installs valid schedules, in list form, and does not use replace() without
-   `times` (replace() hands an ndarray to the constructor, see C02_valid_runs_refuted) *)
+(* the caller only ever installs valid schedules: the one given to the constructor (as a list, tuple, scalar,
+   expression, file or numpy array) and the one in place after each setter / replace operation *)
 Definition valid_scenario (r : raw) (s : tv) (nd : bool) (ops : list op) : Prop :=
-  forallb plain_op ops = true
-  /\ Forall ro_valid (intended_all {| r_times := r; r_start := s; r_nd := nd |} ops).
+  Forall ro_valid (intended_all {| r_times := r; r_start := s; r_nd := nd |} ops).
 
 Definition final (r : raw) (s : tv) (nd : bool) (ops : list op) : readout :=
   intended {| r_times := r; r_start := s; r_nd := nd |} ops.
@@ -468,7 +504,7 @@ Lemma valid_scenario_final : forall r s nd ops, valid_scenario r s nd ops ->
   exists qs st, r_times (final r s nd ops) = R1 (map TQ qs) /\ r_start (final r s nd ops) = TQ st
                 /\ valid_q qs st.
 Proof.
-  intros r s nd ops [_ Hall]. apply intended_all_last_valid in Hall.
+  intros r s nd ops Hall. apply intended_all_last_valid in Hall.
   destruct Hall as [qs [st [H1 [H2 H3]]]]. exists qs, st. auto.
 Qed.
 
@@ -493,26 +529,29 @@ Section Statements.
     simpl. f_equal. apply IH.
   Qed.
 
-  Lemma st_runs : forall r s nd ops prog d0, valid_scenario r s nd ops ->
+  (* Readout.__init__ takes numpy arrays (regenerated; see [ctor]) *)
+  Hypothesis HN : g_ndarray G = true.
+
+  Lemma st_runs : forall f r s nd ops prog d0, valid_scenario r s nd ops ->
     exists qs st,
       r_times (final r s nd ops) = R1 (map TQ qs) /\ r_start (final r s nd ops) = TQ st /\ valid_q qs st
-      /\ scenario A zero G E FList r s nd ops prog d0
+      /\ scenario A zero G E f r s nd ops prog d0
          = Ran (trace_of A zero E (final r s nd ops) (map TQ qs) prog d0).
   Proof.
-    intros r s nd ops prog d0 Hv. destruct (valid_scenario_final _ _ _ _ Hv) as [qs [st [H1 [H2 H3]]]].
+    intros f r s nd ops prog d0 Hv. destruct (valid_scenario_final _ _ _ _ Hv) as [qs [st [H1 [H2 H3]]]].
     exists qs, st. repeat split; try assumption.
-    destruct Hv as [Hp Hall]. apply scenario_valid; assumption.
+    apply scenario_valid; assumption.
   Qed.
 
   (* C02_once_per_time_in_order *)
-  Lemma st_once_in_order : forall r s nd ops prog d0, valid_scenario r s nd ops ->
+  Lemma st_once_in_order : forall f r s nd ops prog d0, valid_scenario r s nd ops ->
     exists qs trace,
       r_times (final r s nd ops) = R1 (map TQ qs)
-      /\ scenario A zero G E FList r s nd ops prog d0 = Ran trace
+      /\ scenario A zero G E f r s nd ops prog d0 = Ran trace
       /\ map (fun o => c_time (o_clock o)) trace = map TQ qs
       /\ length trace = length qs.
   Proof.
-    intros r s nd ops prog d0 Hv. destruct (st_runs r s nd ops prog d0 Hv) as [qs [st [H1 [H2 [H3 H4]]]]].
+    intros f r s nd ops prog d0 Hv. destruct (st_runs f r s nd ops prog d0 Hv) as [qs [st [H1 [H2 [H3 H4]]]]].
     exists qs, (trace_of A zero E (final r s nd ops) (map TQ qs) prog d0).
     repeat split; try assumption.
     - apply trace_times.
@@ -520,10 +559,10 @@ Section Statements.
   Qed.
 
   (* C02_clock *)
-  Lemma st_clock : forall r s nd ops prog d0, valid_scenario r s nd ops ->
+  Lemma st_clock : forall f r s nd ops prog d0, valid_scenario r s nd ops ->
     exists qs st trace,
       r_times (final r s nd ops) = R1 (map TQ qs) /\ r_start (final r s nd ops) = TQ st
-      /\ scenario A zero G E FList r s nd ops prog d0 = Ran trace
+      /\ scenario A zero G E f r s nd ops prog d0 = Ran trace
       /\ forall i o, nth_error trace i = Some o ->
            c_time (o_clock o) = TQ (nth i qs 0)
            /\ c_step (o_clock o) = TQ (nth i qs 0 - nth i (st :: qs) 0)
@@ -532,7 +571,7 @@ Section Statements.
            /\ c_first (o_clock o) = Nat.eqb i 0
            /\ c_last (o_clock o) = Nat.eqb (S i) (length qs).
   Proof.
-    intros r s nd ops prog d0 Hv. destruct (st_runs r s nd ops prog d0 Hv) as [qs [st [H1 [H2 [H3 H4]]]]].
+    intros f r s nd ops prog d0 Hv. destruct (st_runs f r s nd ops prog d0 Hv) as [qs [st [H1 [H2 [H3 H4]]]]].
     exists qs, st, (trace_of A zero E (final r s nd ops) (map TQ qs) prog d0).
     repeat split; try assumption;
       pose proof (trace_clock_nth A zero E _ _ _ _ _ _ H) as Hc;
@@ -550,14 +589,14 @@ Section Statements.
   Qed.
 
   (* the steps the models see add up to end time - start time *)
-  Lemma st_steps_sum : forall r s nd ops prog d0, valid_scenario r s nd ops ->
+  Lemma st_steps_sum : forall f r s nd ops prog d0, valid_scenario r s nd ops ->
     exists qs st trace,
       r_times (final r s nd ops) = R1 (map TQ qs) /\ r_start (final r s nd ops) = TQ st
-      /\ scenario A zero G E FList r s nd ops prog d0 = Ran trace
+      /\ scenario A zero G E f r s nd ops prog d0 = Ran trace
       /\ map (fun o => c_step (o_clock o)) trace = map TQ (steps_q st qs)
       /\ qsum (steps_q st qs) == last qs st - st.
   Proof.
-    intros r s nd ops prog d0 Hv. destruct (st_runs r s nd ops prog d0 Hv) as [qs [st [H1 [H2 [H3 H4]]]]].
+    intros f r s nd ops prog d0 Hv. destruct (st_runs f r s nd ops prog d0 Hv) as [qs [st [H1 [H2 [H3 H4]]]]].
     exists qs, st, (trace_of A zero E (final r s nd ops) (map TQ qs) prog d0).
     repeat split; try assumption.
     - unfold trace_of, steps. rewrite loop_steps, H2. apply (steps_map st qs).
@@ -567,9 +606,9 @@ Section Statements.
   Hypothesis HE : empty_table_ok E = true.
 
   (* C02_step_start_buckets *)
-  Lemma st_step_start : forall r s nd ops prog d0, valid_scenario r s nd ops ->
+  Lemma st_step_start : forall f r s nd ops prog d0, valid_scenario r s nd ops ->
     exists trace,
-      scenario A zero G E FList r s nd ops prog d0 = Ran trace
+      scenario A zero G E f r s nd ops prog d0 = Ran trace
       /\ forall i o, nth_error trace i = Some o ->
            scene (o_begin o) = None /\ photon (o_begin o) = None /\ charge (o_begin o) = None
            /\ signal (o_begin o) = None /\ image (o_begin o) = None
@@ -581,7 +620,7 @@ Section Statements.
                        else Some zero
               end.
   Proof.
-    intros r s nd ops prog d0 Hv. destruct (st_runs r s nd ops prog d0 Hv) as [qs [st [H1 [H2 [H3 H4]]]]].
+    intros f r s nd ops prog d0 Hv. destruct (st_runs f r s nd ops prog d0 Hv) as [qs [st [H1 [H2 [H3 H4]]]]].
     exists (trace_of A zero E (final r s nd ops) (map TQ qs) prog d0). split; [exact H4|].
     intros i o Hn.
     pose proof (trace_begins A zero E HE (final r s nd ops) (map TQ qs) prog d0) as Hb.
